@@ -163,8 +163,9 @@ def model_matrix(model, consts):
 
 
 def call(f, *a, **k):
+    """run the real function under a step budget (a run that does not finish is reported as ('raise', 'StepBudget'))"""
     try:
-        return ("ok", f(*a, **k))
+        return ("ok", B.with_step_budget(lambda: f(*a, **k), "binary_linalg", 20000))
     except Exception as ex:  # pylint: disable=broad-except
         return ("raise", type(ex).__name__)
 
@@ -184,8 +185,8 @@ def native_rref_ok(BL, A):
     if sum(1 for r in R.tolist() if any(r)) != ref_rank(A):
         return f"number of pivots != rank: {R.tolist()}"
     A2 = A.copy()
-    R2 = BL.binary_finite_reduced_row_echelon(A2, inplace=True)
-    if R2 is not A2 or not np.array_equal(R2, R):
+    st2, R2 = call(BL.binary_finite_reduced_row_echelon, A2, inplace=True)
+    if st2 != "ok" or R2 is not A2 or not np.array_equal(R2, R):
         return "inplace=True does not return the (modified) input object with the same result"
     return None
 
@@ -249,7 +250,8 @@ def build(tier, seed):
                 R2 = BL.binary_finite_reduced_row_echelon(A2, inplace=True)
                 return R, untouched, (R2 is A2), R2
             try:
-                res = B.explore(run, max_paths=200000, budget_s=1500, allowed_exc=(np.linalg.LinAlgError, ValueError, IndexError, ZeroDivisionError))
+                res = B.explore(lambda: B.with_step_budget(run, "binary_linalg", 20000), max_paths=200000, budget_s=1500,
+                                allowed_exc=(np.linalg.LinAlgError, ValueError, IndexError, ZeroDivisionError, B.StepBudget))
             except Exception as ex:  # pylint: disable=broad-except
                 # the symbolic run left the fragment (an operation the bit scalars do not model): complete enumeration of the shape instead
                 return enumerate_instead(lambda: next(({"inputs": M.tolist(), "observed": bad} for M in all_matrices(m, n)
@@ -285,7 +287,7 @@ def build(tier, seed):
                                    replay=dict(confirmed=bool(bad), observed=bad, inputs=M.tolist(),
                                                expected="reduced row-echelon form with the row space and rank of the input"))
             return Outcome(DISCHARGED, "bits+z3", f"{len(res)} paths cover all {2 ** (m * n)} matrices", extra=dict(sub_obligations=n_vc, paths=len(res)))
-        return Obligation(name, "post", fn, func=(FILE, "binary_finite_reduced_row_echelon"), size_bounded=True, timeout=1800,
+        return Obligation(name, "post", fn, func=(FILE, "binary_finite_reduced_row_echelon"), size_bounded=True, timeout=(600 if quick else 3000),
                           sample="all matrices of the shape at once: RREF, same row space, #pivots == rank, copy/inplace protocol")
     for m, n in shapes:
         plan.add(rref_shape(m, n))
@@ -304,7 +306,8 @@ def build(tier, seed):
                 consts["A"], consts["b"] = ca, cb
                 return BL.binary_solve_linear_system(A, b)
             try:
-                res = B.explore(run, max_paths=200000, budget_s=1500, allowed_exc=(np.linalg.LinAlgError, ValueError, IndexError, ZeroDivisionError))
+                res = B.explore(lambda: B.with_step_budget(run, "binary_linalg", 20000), max_paths=200000, budget_s=1500,
+                                allowed_exc=(np.linalg.LinAlgError, ValueError, IndexError, ZeroDivisionError, B.StepBudget))
             except Exception as ex:  # pylint: disable=broad-except
                 return enumerate_instead(lambda: next(({"inputs": dict(A=M.tolist(), b=list(bb)), "observed": bad} for M in all_matrices(n, n)
                                                        for bb in itertools.product((0, 1), repeat=n)
@@ -333,7 +336,7 @@ def build(tier, seed):
                                    replay=dict(confirmed=bool(bad), observed=bad, inputs=dict(A=MA.tolist(), b=mb.tolist()),
                                                expected="x with A.x == b for regular A, LinAlgError for singular A"))
             return Outcome(DISCHARGED, "bits+z3", f"{len(res)} paths cover all {2 ** (n * n + n)} systems", extra=dict(sub_obligations=len(res), paths=len(res)))
-        return Obligation(name, "post", fn, func=(FILE, "binary_solve_linear_system"), size_bounded=True, timeout=1800,
+        return Obligation(name, "post", fn, func=(FILE, "binary_solve_linear_system"), size_bounded=True, timeout=(600 if quick else 3000),
                           sample="all systems of the size at once: A.x == b and A regular, or LinAlgError and A singular")
     for n in range(1, (3 if quick else 4) + 1):
         plan.add(solve_size(n))
@@ -450,7 +453,7 @@ def build(tier, seed):
                 if bad:
                     return dict(inputs=A.tolist(), observed=bad, expected="reduced row-echelon form with the row space and rank of the input")
                 R = BL.binary_finite_reduced_row_echelon(A)
-                if sum(1 for r in R.tolist() if any(r)) != BL.binary_matrix_rank(A):
+                if sum(1 for r in R.tolist() if any(r)) != call(BL.binary_matrix_rank, A)[1]:
                     return dict(inputs=A.tolist(), observed=R.tolist(), expected="binary_matrix_rank == number of pivots of the row-echelon form")
             return None
         return native_ob(f"C50/binary_linalg:binary_finite_reduced_row_echelon/enumeration[{m}x{n}]", fn,
@@ -547,8 +550,8 @@ def build(tier, seed):
             bad = native_rref_ok(BL, A.copy()) if m <= 7 else None
             if bad:
                 return dict(inputs=A.tolist(), observed=bad, expected="reduced row-echelon form with the row space and rank of the input")
-            if BL.binary_matrix_rank(A) != ref_rank(A):
-                return dict(inputs=A.tolist(), observed=int(BL.binary_matrix_rank(A)), expected=ref_rank(A))
+            if call(BL.binary_matrix_rank, A) != ("ok", ref_rank(A)):
+                return dict(inputs=A.tolist(), observed=repr(call(BL.binary_matrix_rank, A)), expected=ref_rank(A))
             k = min(m, n)
             S = A[:k, :k]
             bb = np.array([rng.randint(0, 1) for _ in range(k)], dtype=int)
@@ -568,7 +571,7 @@ def native_ob(name, fn, desc, func, **kw):
             return Outcome(REFUTED, "real-code-run+brute-force-reference", str(bad)[:1500], witness=dict(inputs=bad.get("inputs")),
                            replay=dict(confirmed=True, observed=bad.get("observed"), expected=bad.get("expected", desc), inputs=bad.get("inputs")))
         return Outcome(DISCHARGED, "real-code-run+brute-force-reference", desc)
-    return Obligation(name, "post", run, func=(FILE, func), sample=desc, timeout=kw.pop("timeout", 1200), **kw)
+    return Obligation(name, "post", run, func=(FILE, func), sample=desc, timeout=kw.pop("timeout", 900), **kw)
 
 
 def enumerate_instead(first_failure, count, why):
